@@ -507,7 +507,10 @@ def near_pair(rng, depth=3):
 
 CMP_EXPRS = ["[0] == [1]", "[0] != [1]", "@[0] == @[1] || `\"ne\"`", "[?@ == `1`]", "[[0] == [1], [1] == [0], [0] != [1]]",
              "[0] < [1]", "[0] >= [1]", "[?[0] == [1]]", "[*] | [0] == [1]", "{e: [0] == [1], n: [0] != [1]}", "!([0] == [1])",
-             "([0] == [1]) && `true`", "[0].a == [1].a", "[0][0] == [1][0]", "[0].* == [1].*", "[0][] == [1][]"]
+             "([0] == [1]) && `true`", "[0].a == [1].a", "[0][0] == [1][0]", "[0].* == [1].*", "[0][] == [1][]",
+             # the same stored value on both sides (ordering is defined on numbers only, whatever the operands' identity)
+             "[0] <= [0]", "[1] >= [1]", "[[0] < [0], [0] <= [0], [0] > [0], [0] >= [0], [0] != [0]]", "@ <= @", "[?@ <= @]", "[?@ >= @] | length(@)",
+             "[0].a <= [0].a", "[*].[@ <= @, @ == @]"]
 
 
 # ----------------------------------------------------------------------------- postfix chains over table-shaped data
